@@ -153,6 +153,10 @@ func (w *World) buildOverlay(props map[string]bool) error {
 	return nil
 }
 
+// thoroughStrLenAdd: how much longer the strings of the bounded encoding may be
+// in the thorough tier (a harness directive tstrlen=N sets its own bound).
+const thoroughStrLenAdd = 12
+
 func packageClause(src []byte) string {
 	for _, l := range strings.Split(string(src), "\n") {
 		l = strings.TrimSpace(l)
@@ -238,7 +242,7 @@ func (w *World) load() error {
 				if len(parts) >= 2 {
 					h.Prop = parts[1]
 				}
-				tStrLen, tUnwind, tPaths := 0, 0, 0
+				tStrLen, tUnwind, tPaths, tConc := 0, 0, 0, 0
 				if fd.Doc != nil {
 					for _, c := range fd.Doc.List {
 						t := strings.TrimSpace(strings.TrimPrefix(c.Text, "//"))
@@ -275,6 +279,10 @@ func (w *World) load() error {
 								if w.tier == "thorough" {
 									tUnwind = n
 								}
+							case "tconcretize":
+								if w.tier == "thorough" {
+									tConc = n
+								}
 							case "tpaths":
 								if w.tier == "thorough" {
 									tPaths = n
@@ -310,12 +318,19 @@ func (w *World) load() error {
 				}
 				if tStrLen > 0 {
 					h.StrLen = tStrLen
+				} else if w.tier == "thorough" {
+					h.StrLen += thoroughStrLenAdd // deeper stage-B bound in the thorough tier
 				}
 				if tUnwind > 0 {
 					h.Unwind = tUnwind
+				} else if w.tier == "thorough" && !h.BV {
+					h.Unwind += thoroughStrLenAdd // loops over the longer strings
 				}
 				if tPaths > 0 {
 					h.MaxPaths = tPaths
+				}
+				if tConc > 0 {
+					h.ConcretizeMax = tConc
 				}
 				if add, _ := strconv.Atoi(os.Getenv("VERIF_STRLEN_ADD")); add > 0 {
 					h.StrLen += add
